@@ -83,26 +83,34 @@ func (line *Line) ContainsLine(other *Line) bool {
 		return false
 	}
 	otherNumSegments := other.NumSegments()
+	// dir is the direction in which the current "other" segment is being
+	// searched for; a search never turns around, so the walk always ends.
+	dir := 0
 	for i := 1; i < otherNumSegments; i++ {
 		lineSeg := line.SegmentAt(segIdx)
 		otherSeg := other.SegmentAt(i)
 		if lineSeg.ContainsSegment(otherSeg) {
+			dir = 0
 			continue
 		}
 		if otherSeg.A == lineSeg.A {
 			// reverse it
-			if segIdx == 0 {
+			if segIdx == 0 || dir == 1 {
 				return false
 			}
 			segIdx--
 			i--
+			dir = -1
 		} else if otherSeg.A == lineSeg.B {
 			// forward it
-			if segIdx == lineNumSegments-1 {
+			if segIdx == lineNumSegments-1 || dir == -1 {
 				return false
 			}
 			segIdx++
 			i--
+			dir = 1
+		} else {
+			dir = 0
 		}
 	}
 	return true
